@@ -553,6 +553,8 @@ def make_namespace() -> dict[str, object]:
         '__fpy_min': _eval_min,
         '__fpy_max': _eval_max,
         '__fpy_len': _eval_len,
+        '__fpy_zip': zip,
+        '__fpy_list': list,
         '__fpy_any': _eval_any,
         '__fpy_all': _eval_all,
         '__fpy_eq': _eval_eq,
@@ -809,12 +811,14 @@ class BytecodeCompiler(Visitor):
                 return pyast.Call(func=func, args=args, keywords=[], **attrs)
             case Zip():
                 # first zip the arguments with `strict=True` to ensure they have the same length
-                func = pyast.Name(id='zip', ctx=pyast.Load(), **attrs)
+                # (under names of the runtime's own: a program variable called
+                # `zip` or `list` must not capture them)
+                func = pyast.Name(id='__fpy_zip', ctx=pyast.Load(), **attrs)
                 kwarg = pyast.keyword(arg='strict', value=pyast.Constant(value=True, kind=None, **attrs), **attrs)
                 call = pyast.Call(func=func, args=args, keywords=[kwarg], **attrs)
 
                 # then, greedily force the zip object into a list
-                func = pyast.Name(id='list', ctx=pyast.Load(), **attrs)
+                func = pyast.Name(id='__fpy_list', ctx=pyast.Load(), **attrs)
                 return pyast.Call(func=func, args=[call], keywords=[], **attrs)
             case _:
                 raise NotImplementedError(f'unsupported n-ary operation: {type(e).__name__}')
